@@ -68,7 +68,8 @@ def classify(kind, case):
     why = {2: "status-or-reason-phrase-changed", 3: "end-to-end-field-missing-or-changed", 4: "hop-by-hop-field-reaches-client",
            5: "body-differs", 6: "declared-trailers-differ",
            7: "connection-kept-after-aborted-response", 8: "connection-closed-without-cause",
-           9: "response-header-rule-not-applied", 10: "request-the-client-never-sent-reached-an-origin"}.get(case.get("why"))
+           9: "response-header-rule-not-applied", 10: "request-the-client-never-sent-reached-an-origin",
+           11: "connection-closed-unannounced"}.get(case.get("why"))
     if why:
         return pre + why
     if kind == "xcases" and case.get("only304ct"):
@@ -93,24 +94,39 @@ def classify(kind, case):
     return kind
 
 
-def _coqc_with_g16(ctx):
-    """Check.v imports G16.Model (C16's model of the header rules, read-only): every coqc call needs -Q ../g16 G16."""
-    lib = os.path.join(common.VERIF, "coq", "lib")
+G16V = os.path.join(common.VERIF, "coq", GROUP, "g16v")
+
+
+def _sync_g16v():
+    """Check.v uses C16's model of the header rules (G16.Model.apply_rules).  A private copy is compiled under
+    coq/g02/g16v (logical name G16): C16's Model.v and, as Tables.v, C16's committed Tables.default (the tables of
+    /repo HEAD).  Importing coq/g16 in place made this check depend on whatever tree another run had last generated
+    coq/g16/Tables.v from (a mutant run of C16 broke and rebuilt g02).  The copy is refreshed whenever C16's files change."""
+    changed = False
     g16 = os.path.join(common.VERIF, "coq", "g16")
+    for src, dst in (("Model.v", "Model.v"), ("Tables.default", "Tables.v")):
+        a, b2 = os.path.join(g16, src), os.path.join(G16V, dst)
+        if os.path.exists(a) and (not os.path.exists(b2) or open(a).read() != open(b2).read()):
+            os.makedirs(G16V, exist_ok=True)
+            shutil.copy(a, b2)
+            changed = True
+    return changed
+
+
+def _coqc_with_g16(ctx):
+    lib = os.path.join(common.VERIF, "coq", "lib")
     g02 = os.path.join(common.VERIF, "coq", GROUP)
 
     def coqc(group, vfile, cwd=None, timeout=600):
-        return common.sh(["coqc", "-Q", lib, "FwdLib", "-Q", g16, "G16", "-Q", g02, "G02", vfile], cwd=cwd or g02, timeout=timeout)
+        return common.sh(["coqc", "-Q", lib, "FwdLib", "-Q", g02, "G02", "-Q", G16V, "G16", vfile], cwd=cwd or g02, timeout=timeout)
     ctx.coqc = coqc
 
 
 def run(ctx):
-    # g02's checkers import G16.Model: hold g16's lock for the whole run so that a C16 check (which regenerates and
-    # rebuilds g16) cannot interleave with the g02 build or the shard evaluation (same order as C01/C18: own group, then g16)
-    with common.Lock("group-g16"):
-        _coqc_with_g16(ctx)
-        ok16, log16, failed16 = ctx.coq_make("g16")
-        _run(ctx, None if ok16 else "coq/g16 (imported read-only) does not build: %s" % log16[-400:])
+    _coqc_with_g16(ctx)
+    if _sync_g16v():
+        ctx.log("g16v: refreshed the private copy of C16's rule model")
+    _run(ctx, None)
 
 
 def _run(ctx, g16_problem):
@@ -271,7 +287,7 @@ def _run(ctx, g16_problem):
     if ctx.tier == "thorough" and not ctx.replay:
         g = os.path.join(common.VERIF, "coq", GROUP)
         rc, out = common.sh(["coqchk", "-silent", "-o", "-Q", os.path.join(common.VERIF, "coq", "lib"), "FwdLib",
-                             "-Q", os.path.join(common.VERIF, "coq", "g16"), "G16", "-Q", g, "G02", "G02.C02"], cwd=g, timeout=1500)
+                             "-Q", g, "G02", "-Q", G16V, "G16", "G02.C02"], cwd=g, timeout=1500)
         flat = " ".join(out.split())
         m = re.search(r"\* Axioms: (.*?) \* Constants", flat)
         coqchk = {"rc": rc, "axioms": m.group(1).strip() if m else None}
